@@ -7,7 +7,7 @@ RULE = ('post stage: resolve_displaced_content / post_process of the implementat
         'AKN-shaped trees with repeated, missing, surplus, nested and out-of-order footnote references and blocks, text and tails '
         'everywhere (also trees the parser never produces); e2e stage on generated documents with footnotes. Oracle on the '
         'implementation: no displaced element/attribute survives, every note has content or the placeholder, reference count kept, '
-        'surplus blocks stay as "FOOTNOTE m" + content, every word of every block appears exactly once; the tree the builder hands to footnote resolution has the shape the conservation theorem assumes (wfDx). non-trivial = document/tree '
+        'surplus blocks stay as "FOOTNOTE m" + content, several blocks with one marker are handed out in document order whatever their position relative to the references, every word of every block appears exactly once; the tree the builder hands to footnote resolution has the shape the conservation theorem assumes (wfDx). non-trivial = document/tree '
         'with at least one reference and one block; distinct by input.')
 TRUSTED_BASE = [
     'Coq 8.16.1 kernel; no axioms',
@@ -213,6 +213,49 @@ def _pair_oracle(args):
             return ('bad', 'the unreferenced block of section %d did not stay in place' % (si + 1), text)
     return ('ok', None, text)
 
+def order_doc(rng):
+    """several FOOTNOTE blocks with ONE marker, directly in a PART or inside sibling sections of it, and one paragraph (in a section of its
+    own, with no block) holding the references: the PART is the closest enclosing element that has a block, and the statement says candidates
+    are taken in document order there, each used once - so the i-th reference holds the i-th block, wherever the paragraph stands (round 15:
+    a search that walks the preceding siblings nearest-first takes them in reverse)"""
+    m = rng.choice(PAIR_MARKERS)
+    nb = rng.randint(2, 4); nr = rng.randint(1, nb)
+    pos = nb if rng.random() < 0.5 else rng.randint(0, nb)
+    lines = ['PART 1 - orderz']
+    sec = 0
+    def refsec():
+        nonlocal sec
+        sec += 1
+        lines.append('  SEC %d.' % sec)
+        lines.append('    refsz ' + ' '.join('r%dz{{FOOTNOTE %s}}' % (i + 1, m) for i in range(nr)) + ' endz')
+        lines.append('')
+    for b in range(nb):
+        if b == pos: refsec()
+        if rng.random() < 0.5:
+            sec += 1
+            lines += ['  SEC %d.' % sec, '    filler%dz' % b, '', '    FOOTNOTE ' + m, '      blk%dz words' % (b + 1), '']
+        else:
+            lines += ['  FOOTNOTE ' + m, '    blk%dz words' % (b + 1), '']
+    if pos == nb: refsec()
+    return '\n'.join(lines) + '\n', nr
+
+def _order_oracle(args):
+    seed, root = args
+    import random
+    text, nr = order_doc(random.Random(seed))
+    try:
+        xml = impl.parser().parse_to_xml(text, root)
+    except Exception as e:
+        return ('raised', impl.exc_kind(e), text)
+    ns = '{%s}' % xmlsx.NS
+    ps = [p_ for p_ in xml.iter(ns + 'p') if (p_.text or '').startswith('refsz')]
+    if len(ps) != 1: return ('bad', 'the paragraph holding the references appears %d times' % len(ps), text)
+    got = [''.join(n.itertext()).split() for n in ps[0].iter(ns + 'authorialNote')]
+    want = [['blk%dz' % (i + 1), 'words'] for i in range(nr)]
+    if got != want:
+        return ('bad', 'references in document order hold %r, not the blocks in document order %r' % (got, want), text)
+    return ('ok', None, text)
+
 def list_pair_doc(rng):
     """a block list whose introduction and wrap-up lines carry references with their own FOOTNOTE block right after the line, items with
     references and blocks of their own, and stray blocks of the SAME markers inside items: the block that the grammar attaches to the
@@ -364,6 +407,10 @@ def search(ctx, budget):
         ctx.evaluations += 1; ctx.count('list_pairs_' + r[0])
         if r[0] == 'bad':
             ctx.failures.append(({'stage': 'list-pairs', 'seed': j[0], 'root': j[1], 'text': r[2]}, r[1]))
+    for j, r in zip(pj, impl.pmap(_order_oracle, pj, chunk=16)):
+        ctx.evaluations += 1; ctx.count('order_' + r[0])
+        if r[0] == 'bad':
+            ctx.failures.append(({'stage': 'order', 'seed': j[0], 'root': j[1], 'text': r[2]}, r[1]))
     qj = [ctx.rng.randrange(1 << 30) for _ in range(ctx.n(400, 20000) * budget)]
     for j, r in zip(qj, impl.pmap(_quiet_oracle, qj, chunk=32)):
         ctx.evaluations += 1; ctx.count('quiet_tree_' + r[0])
@@ -389,6 +436,8 @@ def replay(obj):
         print('nothing to replay:', obj.get('broken_obligations')); return 1
     if case.get('stage') == 'list-pairs':
         r = _list_pair_oracle((case['seed'], case['root'])); print(r[:2]); return 1 if r[0] == 'bad' else 0
+    if case.get('stage') == 'order':
+        r = _order_oracle((case['seed'], case['root'])); print(r[:2]); return 1 if r[0] == 'bad' else 0
     if case.get('stage') == 'pairs':
         r = _pair_oracle((case['seed'], case['root'])); print(r[:2]); return 1 if r[0] == 'bad' else 0
     if case.get('stage') == 'quiet':
